@@ -118,7 +118,11 @@ def _eval_node(node: ast.AST, context: dict[str, Any]) -> Any:
         else:
             key = _eval_node(node.slice, context)
         if isinstance(value, dict):
-            return value.get(key)
+            try:
+                return value.get(key)
+            except TypeError as e:
+                # Unhashable key (e.g. d[[1]]) - not a valid lookup, not a crash
+                raise ExpressionError(f"Unsupported subscript key of type {type(key).__name__}: {e}") from e
         if isinstance(value, (list, tuple)) and isinstance(key, int):
             try:
                 return value[key]
@@ -136,7 +140,7 @@ def _eval_node(node: ast.AST, context: dict[str, Any]) -> Any:
             try:
                 if not op_func(left, right):
                     return False
-            except TypeError as e:
+            except (TypeError, ValueError) as e:
                 raise ExpressionError(
                     f"Cannot compare {type(left).__name__} and {type(right).__name__} with {type(op).__name__}: {e}"
                 ) from e
@@ -155,7 +159,10 @@ def _eval_node(node: ast.AST, context: dict[str, Any]) -> Any:
         unary_func = _SAFE_UNARY_OPS.get(type(node.op))
         if unary_func is None:
             raise ExpressionError(f"Unsupported unary operator: {type(node.op).__name__}")
-        return unary_func(operand)
+        try:
+            return unary_func(operand)
+        except TypeError as e:
+            raise ExpressionError(f"Cannot apply {type(node.op).__name__} to {type(operand).__name__}: {e}") from e
 
     if isinstance(node, ast.IfExp):
         test = _eval_node(node.test, context)
